@@ -8,7 +8,7 @@
    accepts, and returns the state unchanged when it declines. *)
 From Coq Require Import String.
 From MdIt Require Import Prims Tables Escape NormRef Indent Mdurl LinkParse Tree HtmlRe Block.
-From MdIt Require Import BlockProofs BlockRangeDefs.
+From MdIt Require Import BlockProofs RefSafeProofs BlockRangeDefs.
 From Coq Require Import Lia ZifyBool ZifyN ZifyNat.
 Local Open Scope list_scope.
 Local Open Scope N_scope.
@@ -39,7 +39,8 @@ Proof. exact (fun H => H). Qed.
 (* ------------------------------------------------------------------ *)
 (* the invariant                                                         *)
 
-Definition rec_wf (r : lrec) : Prop := l_first r <= len (l_text r).
+(* a line record: the first non-blank offset lies within the text, and the text holds no line feed *)
+Definition rec_wf (r : lrec) : Prop := ((l_first r <=? len (l_text r)) && (cl (l_text r) =? 0)) = true.
 Definition lines_wf (ls : list lrec) : Prop := forall l r, nth_error ls l = Some r -> rec_wf r.
 Definition binv (st : bstate) : Prop := (b_max st <= length (b_lines st))%nat /\ lines_wf (b_lines st).
 
@@ -90,7 +91,7 @@ Proof.
   cbn. exists (l_first r1), (l_end r2). split; [reflexivity|]. unfold rec_wf, l_end in *.
   split; [exists (l_text r1); split; [apply txs_nth; exact Hr1|lia]|].
   split; [exists (l_text r2); split; [apply txs_nth; exact Hr2|lia]|].
-  intros ->. rewrite Hr1 in Hr2. injection Hr2 as <-. exact Hw1.
+  intros ->. rewrite Hr1 in Hr2. injection Hr2 as <-. lia.
 Qed.
 
 Lemma calc_rw_bound rs : forall indent start, len rs <= start -> snd (calc_rw_loop rs indent start) <= start.
@@ -240,6 +241,7 @@ Qed.
 
 (* an accepting rule has appended one block whose lines are exactly those it consumed *)
 Definition pushed (st : bstate) (x : bstate) : Prop :=
+  b_node x = b_node st \/
   exists c, b_node x = push_child (b_node st) c /\ blk_ok (txs st) (b_line st) (b_line x) c.
 Definition rok (st : bstate) (x : bstate * bool) : Prop :=
   b_lines (fst x) = b_lines st /\ b_max (fst x) = b_max st /\
@@ -250,7 +252,7 @@ Ltac rng_leaf :=
   unfold mk; rewrite blk_ok_unfold; cbn [txs b_lines set_line] in *;
   repeat split; try assumption; try lia; cbn [kids_ok]; rewrite ?blk_ok_unfold; auto.
 Ltac accept := apply np_ret; unfold rok, pushed; cbn [fst snd b_lines b_max b_line b_node set_line push_node set_node set_refs];
-  split; [reflexivity|]; split; [reflexivity|]; split; [lia|]; eexists; split; [reflexivity|]; rng_leaf.
+  split; [reflexivity|]; split; [reflexivity|]; split; [lia|]; right; eexists; split; [reflexivity|]; rng_leaf.
 
 Lemma rok_decline st : rok st (st, false).
 Proof. repeat split. Qed.
@@ -305,6 +307,56 @@ Proof.
 Qed.
 End Rules.
 
+(* ------------------------------------------------------------------ *)
+(* line feeds: the text handed to the reference rule has one per line break *)
+
+Lemma cl_repeat32 k : cl (repeatN 32 k) = 0.
+Proof. induction k as [|k IH]; [reflexivity|]. cbn [repeatN cl]. rewrite IH. reflexivity. Qed.
+
+Lemma get_lines_loop_cl st n : forall line e ind acc mp x, binv st -> (e <= b_max st)%nat ->
+  get_lines_loop st n line e ind false acc mp = inr x -> (e - line <= n)%nat ->
+  ((line < e)%nat -> cl (fst x) + 1 <= cl acc + N.of_nat (e - line)) /\ ((e <= line)%nat -> cl (fst x) = cl acc).
+Proof.
+  induction n as [|n IH]; intros line e ind acc mp x Hi He H Hn; cbn [get_lines_loop] in H.
+  { injection H as <-. cbn [fst]. split; [lia|auto]. }
+  destruct (line <? e)%nat eqn:E; cbn [negb] in H.
+  2:{ apply PeanoNat.Nat.ltb_ge in E. injection H as <-. cbn [fst]. split; [lia|auto]. }
+  apply PeanoNat.Nat.ltb_lt in E. unfold line_rec in H. destruct (nth_in_range (b_lines st) line) as [r Hr]; [destruct Hi; lia|].
+  rewrite Hr in H. cbn [bind ret] in H. destruct (negb (l_first r <=? l_end r)); [discriminate|].
+  destruct (calc_right_whitespace _ _) as [sp first].
+  apply IH in H; [|exact Hi|exact He|lia]. destruct H as [H1 H2].
+  assert (Hlf : cl (dropN first (l_text r)) = 0).
+  { destruct Hi as [_ Hw]. pose proof (Hw _ _ Hr) as Hrw. unfold rec_wf in Hrw. pose proof (cl_drop_le (N.to_nat first) (l_text r)). unfold dropN. lia. }
+  rewrite !cl_app, cl_repeat32, Hlf in H1, H2. rewrite orb_false_r in H1, H2.
+  split; [intros _|lia].
+  destruct (S line <? e)%nat eqn:E2.
+  - apply PeanoNat.Nat.ltb_lt in E2. specialize (H1 E2). cbn [cl] in H1. change (10 =? 10) with true in H1. cbv iota in H1. lia.
+  - apply PeanoNat.Nat.ltb_ge in E2. specialize (H2 E2). cbn [cl] in H2. lia.
+Qed.
+
+Lemma get_lines_cl st b e ind cm : binv st -> (b < e)%nat -> (e <= b_max st)%nat ->
+  get_lines st b e ind false = inr cm -> cl (fst cm) + 1 <= N.of_nat (e - b).
+Proof.
+  intros Hi Hbe He H. unfold get_lines in H. replace (b <=? e)%nat with true in H by (symmetry; apply PeanoNat.Nat.leb_le; lia).
+  apply get_lines_loop_cl in H; [|exact Hi|exact He|lia]. destruct H as [H _]. specialize (H Hbe). cbn [cl] in H. lia.
+Qed.
+
+Lemma cl_trim_start f : forall s, cl (trim_start_fuel f s) <= cl s.
+Proof.
+  induction f as [|f IH]; intros s; cbn [trim_start_fuel]; [lia|].
+  destruct (decode1 s) as [[c n]|]; [|lia]. destruct (is_ws_cp c); [|lia].
+  specialize (IH (dropN n s)). pose proof (cl_drop_le (N.to_nat n) s). unfold dropN in *. lia.
+Qed.
+Lemma cl_trim_end f : forall s, cl (trim_end_fuel f s) <= cl s.
+Proof.
+  induction f as [|f IH]; intros s; cbn [trim_end_fuel]; [lia|]. cbv zeta.
+  destruct (_ <? len s); [|lia]. destruct (decode1 _) as [[c n]|]; [|lia]. destruct (is_ws_cp c); [|lia].
+  match goal with |- cl (trim_end_fuel f (takeN ?p s)) <= _ => specialize (IH (takeN p s)); pose proof (cl_take_le (N.to_nat p) s) end.
+  unfold takeN in *. lia.
+Qed.
+Lemma cl_trim_str s : cl (trim_str s) <= cl s.
+Proof. unfold trim_str. cbv zeta. pose proof (cl_trim_start (length s) s). pose proof (cl_trim_end (length (trim_start_fuel (length s) s)) (trim_start_fuel (length s) s)). lia. Qed.
+
 Section Rules2.
 Variable cfg : bcfg.
 Variable st : bstate.
@@ -358,11 +410,30 @@ Proof.
   destruct (Hcm ltac:(lia)) as (k0 & o0 & rest & Es & Ho0). rewrite Es.
   eapply np_bind; [apply np_pos_end; [exact Hi|lia]|]. intros pe _ (re & Hre & Hwe & ->).
   apply np_ret. unfold rok, pushed. cbn [fst snd b_lines b_max b_line b_node set_line push_node set_node].
-  split; [reflexivity|]. split; [reflexivity|]. split; [lia|]. eexists. split; [reflexivity|].
+  split; [reflexivity|]. split; [reflexivity|]. split; [lia|]. right. eexists. split; [reflexivity|].
   unfold mk. rewrite blk_ok_unfold. unfold l_end, rec_wf in *.
   repeat split; try lia; try exact Ho0; try exact I.
   - exists (l_text re). split; [apply txs_nth; exact Hre|lia].
   - intros E. destruct Ho0 as (t & Ht & Hot). rewrite E in Ht. rewrite (txs_nth _ _ _ Hre) in Ht. injection Ht as <-. exact Hot.
+Qed.
+
+(* the reference-definition rule: adds no node; the lines it reports lie inside the text it scanned *)
+Lemma np_rule_reference : np (rok st) (rule_reference cfg st).
+Proof.
+  unfold rule_reference.
+  eapply np_bind; [apply np_line_indent; assumption|]. intros ind _ _. destruct (4 <=? ind)%Z; [apply rok_decline|].
+  eapply np_bind; [apply np_get_line; assumption|]. intros line _ _.
+  destruct line as [|c t]; [apply rok_decline|].
+  destruct c as [|pc]; [apply rok_decline|].
+  repeat (destruct pc as [pc|pc|]; try apply rok_decline).
+  destruct (negb (ref_precheck t)); [apply rok_decline|]. cbv zeta.
+  eapply np_bind; [apply np_para_scan; [exact Hi|lia]|]. intros next _ Hn. cbn beta in Hn.
+  eapply np_bind; [apply np_get_lines; [exact Hi|lia|lia]|]. intros cm Hcm _.
+  destruct (parse_reference (trim_str (fst cm))) as [[[[label href] title] lines]|] eqn:Ep; [|apply rok_decline].
+  apply parse_reference_lines in Ep. pose proof (cl_trim_str (fst cm)) as Htr.
+  pose proof (get_lines_cl st (b_line st) next (b_blk st) cm Hi ltac:(lia) ltac:(lia) Hcm) as Hcl.
+  apply np_ret. unfold rok, pushed. cbn [fst snd b_lines b_max b_line b_node set_line set_refs].
+  split; [reflexivity|]. split; [reflexivity|]. split; [lia|]. left. reflexivity.
 Qed.
 End Rules2.
 
@@ -501,7 +572,7 @@ Proof.
   eapply np_bind; [apply np_get_line; assumption|]. intros line Hline _.
   eapply np_bind; [apply np_line_rec; assumption|]. intros r Hr [Hnth Hrw]. cbn [b_lines set_lines] in Hnth.
   assert (Hrec : forall f i le', f <= len (l_text r) -> np (qpost lines next) (quote_scan cfg st0 n (set_nth lines next (LRec (l_text r) f i)) (S next) le')).
-  { intros f i le' Hx. eapply np_weaken; [|apply IH; [rewrite set_nth_length; exact Hlen|apply set_nth_wf; [assumption|exact Hx]|lia]].
+  { intros f i le' Hx. eapply np_weaken; [|apply IH; [rewrite set_nth_length; exact Hlen|apply set_nth_wf; [assumption|unfold rec_wf in *; cbn [l_first l_text]; lia]|lia]].
     intros y (A & B & C & D & E'). unfold qpost. repeat split; auto; try lia.
     - intros l Hl. rewrite D by lia. apply set_nth_other. lia.
     - rewrite E'. apply set_nth_text. exact Hnth. }
@@ -522,7 +593,7 @@ Proof.
       * repeat split; [rewrite set_nth_length; exact Hlen|apply set_nth_wf; [exact Hw|exact Hrw]|lia|lia| |].
         -- intros l Hl. apply set_nth_other. lia.
         -- apply set_nth_text. exact Hnth.
-    + apply Hrec. exact Hrw.
+    + apply Hrec. unfold rec_wf in Hrw. lia.
 Qed.
 End Quote.
 
@@ -642,7 +713,7 @@ Proof.
   set (ia' := match rest with d :: _ => if is_sptab d then ia - 1 else ia | [] => ia end).
   set (rec1 := LRec (l_text r) fn (Z.of_N ia')).
   assert (Hw1 : lines_wf (set_nth (b_lines st) (b_line st) rec1)).
-  { apply set_nth_wf; [exact Hw|]. unfold rec_wf, rec1. cbn [l_first l_text]. lia. }
+  { apply set_nth_wf; [exact Hw|]. pose proof (Hw _ _ Hr) as Hrw. unfold rec_wf, rec1 in *. cbn [l_first l_text]. lia. }
   eapply np_bind; [apply (np_quote_scan cfg st (length (b_lines st)) Hm); [apply set_nth_length|exact Hw1|lia]|].
   intros [lines' next] _ (Hlen & Hw' & Hnx & Hframe & Htx). cbn [fst snd] in Hlen, Hw', Hnx, Hframe, Htx.
   assert (Htx' : map l_text lines' = txs st) by (rewrite Htx; unfold rec1; apply set_nth_text; exact Hr).
@@ -657,7 +728,7 @@ Proof.
   specialize (Hkids (b_line st) (le_n _) I). unfold txs in Hkids. cbn [b_lines inner] in Hkids. rewrite Htx' in Hkids.
   eapply np_bind; [apply np_get_map; [split; cbn [b_max b_lines]; assumption|lia|cbn [b_max]; lia]|]. intros mp _ (oa & ob & -> & P1 & P2 & P3).
   apply np_ret. unfold rok, pushed. cbn [fst snd b_lines b_max b_line b_node push_node set_node].
-  split; [reflexivity|]. split; [reflexivity|]. split; [lia|]. eexists. split; [reflexivity|].
+  split; [reflexivity|]. split; [reflexivity|]. split; [lia|]. right. eexists. split; [reflexivity|].
   destruct (b_node inner') as [k0 m0 a0 e0 cs0]. cbn [set_map n_children] in *. rewrite blk_ok_unfold.
   unfold txs in P1, P2. cbn [b_lines] in P1, P2.
   repeat split; try assumption; try lia.
@@ -686,7 +757,7 @@ Proof.
   set (rec1 := LRec (l_text r) fn (Z.of_N (Z.to_N (l_indent r) + p + ia))).
   set (lines1 := set_nth (b_lines st) next rec1).
   set (st1 := BState lines1 (mk KItem None []) (Z.to_N (l_indent r) + p + ia') (b_line st) (b_max st) true (Some (b_blk st)) (b_level st) (b_refs st)).
-  assert (Hw1 : lines_wf lines1) by (apply set_nth_wf; [exact Hw|unfold rec_wf, rec1; cbn [l_first l_text]; lia]).
+  assert (Hw1 : lines_wf lines1) by (apply set_nth_wf; [exact Hw|pose proof (Hw _ _ Hr) as Hrw; unfold rec_wf, rec1 in *; cbn [l_first l_text]; lia]).
   assert (Hi1 : binv st1) by (split; cbn [b_max b_lines st1]; [unfold lines1; rewrite set_nth_length; exact Hm|exact Hw1]).
   (* the item body *)
   assert (Htx1 : map l_text lines1 = txs st) by (unfold lines1, rec1; apply set_nth_text; exact Hr).
@@ -772,30 +843,28 @@ Proof.
   assert (Hitems : kids_ok (txs st) (b_line st) next (n_children (b_node st'))).
   { apply K; [apply le_n|]. unfold txs. cbn [b_lines set_node]. destruct mv; exact I. }
   apply np_ret. unfold rok, pushed. cbn [fst snd b_lines b_max b_line b_node set_node].
-  split; [exact A|]. split; [exact B|]. split; [lia|]. eexists. split; [reflexivity|].
+  split; [exact A|]. split; [exact B|]. split; [lia|]. right. eexists. split; [reflexivity|].
   destruct (b_node st') as [k0 m0 a0 e0 cs0]. cbn [n_children] in Hitems.
   destruct tight; cbn [set_children set_map n_children]; rewrite blk_ok_unfold; repeat split; try assumption; try lia;
     replace (S (next - 1)) with next by lia; [apply items_tight_ok|]; exact Hitems.
 Qed.
 
-Lemma np_rule_real r st : r <> R_REF -> binv st -> (b_line st < b_max st)%nat ->
+Lemma np_rule_real r st : binv st -> (b_line st < b_max st)%nat ->
   (exists r0, nth_error (b_lines st) (b_line st) = Some r0 /\ (0 <= l_indent r0 - Z.of_N (b_blk st))%Z) ->
   np (rok st) (rule_real cfg T r st).
 Proof.
-  intros Hr Hi Hl Hnn. unfold rule_real.
+  intros Hi Hl Hnn. unfold rule_real.
   repeat match goal with |- np _ (if ?c then _ else _) => destruct c eqn:? end;
     auto using np_rule_code, np_rule_fence, np_rule_quote, np_rule_hr, np_rule_list, np_rule_heading, np_rule_lheading,
-      np_rule_paragraph, np_rule_html_block, np_rule_custom, rok_decline.
-  - exfalso. apply Hr. unfold R_REF in *. lia.
-  - apply rok_decline.
+      np_rule_paragraph, np_rule_html_block, np_rule_custom, np_rule_reference, rok_decline.
+  apply rok_decline.
 Qed.
 
-Lemma np_try_rules chain : forall st, Forall (fun r => r <> R_REF) chain -> binv st -> (b_line st < b_max st)%nat ->
+Lemma np_try_rules chain : forall st, binv st -> (b_line st < b_max st)%nat ->
   (exists r0, nth_error (b_lines st) (b_line st) = Some r0 /\ (0 <= l_indent r0 - Z.of_N (b_blk st))%Z) ->
   np (rok st) (try_rules cfg T chain st).
 Proof.
-  induction chain as [|r t IH]; intros st Hc Hi Hl Hnn; cbn [try_rules]; [apply rok_decline|].
-  inversion Hc as [|? ? Hr Ht]; subst.
+  induction chain as [|r t IH]; intros st Hi Hl Hnn; cbn [try_rules]; [apply rok_decline|].
   eapply np_bind; [apply np_rule_real; assumption|]. intros [st' b] _ (A & B & C). cbn [fst snd] in *.
   destruct b; [|subst st'; apply IH; assumption].
   replace (b_line st <? b_line st')%nat with true by (symmetry; apply PeanoNat.Nat.ltb_lt; lia).
@@ -809,7 +878,6 @@ Proof.
   destruct (is_empty st l); [|lia]. specialize (IH (S l) ltac:(lia)). lia.
 Qed.
 
-Hypothesis Hchain : Forall (fun r => r <> R_REF) (bc_chain cfg).
 
 Lemma tsafe_refl st : (b_line st <= b_max st)%nat -> tsafe st st.
 Proof. intros H. split; [reflexivity|]. split; [exact H|]. auto. Qed.
@@ -842,27 +910,30 @@ Proof.
   { unfold line_indent, line_rec in Hind. cbn [b_lines b_line b_blk set_line] in *.
     destruct (nth_error (b_lines st) line) as [r0|]; [|discriminate]. cbn [bind ret] in Hind. injection Hind as <-.
     exists r0. split; [reflexivity|lia]. }
-  eapply np_bind; [apply np_try_rules; [exact Hchain|exact Hi'|exact Hmax|exact Hnn]|].
+  eapply np_bind; [apply np_try_rules; [exact Hi'|exact Hmax|exact Hnn]|].
   intros [st1' ok] _ (A & B & C). cbn [fst snd b_lines b_max b_line set_line] in A, B, C.
   (* after a rule or the fallback: one more child, made of the lines consumed *)
   eapply (np_bind (fun st1 : bstate => b_lines st1 = b_lines st /\ b_max st1 = b_max st /\ (line < b_line st1 <= b_max st)%nat /\
-                                       exists c, b_node st1 = push_child (b_node st) c /\ blk_ok (txs st) line (b_line st1) c)).
+                                       (b_node st1 = b_node st \/
+                                        exists c, b_node st1 = push_child (b_node st) c /\ blk_ok (txs st) line (b_line st1) c))).
   { destruct ok.
-    - destruct C as [C (c & Hc & Hb)]. cbn [b_node b_line set_line txs b_lines] in Hc, Hb. apply np_ret. cbn [fst]. split; [exact A|]. split; [exact B|]. split; [lia|]. exists c. split; [exact Hc|exact Hb].
+    - destruct C as [C Hp]. cbn [b_node b_line set_line txs b_lines] in Hp. apply np_ret. cbn [fst]. split; [exact A|]. split; [exact B|]. split; [lia|]. exact Hp.
     - subst st1'.
       eapply np_bind; [apply np_get_line; [exact Hi'|exact Hmax]|]. intros content _ _.
       eapply np_bind; [apply np_line_rec; [exact Hi'|exact Hmax]|]. intros r0 _ _.
       apply np_ret. cbn [b_lines b_max b_line b_node set_line push_node set_node]. repeat split; try lia.
-      eexists. split; [reflexivity|]. unfold mk. rewrite blk_ok_unfold. reflexivity. }
-  intros st1 _ (A1 & B1 & C1 & c & Hc & Hb).
+      right. eexists. split; [reflexivity|]. unfold mk. rewrite blk_ok_unfold. reflexivity. }
+  intros st1 _ (A1 & B1 & C1 & Hp1).
   assert (Hrec : forall s' he', b_lines s' = b_lines st -> b_max s' = b_max st -> (b_line st1 <= b_line s' <= b_max st)%nat ->
             b_node s' = b_node st1 -> np (tsafe st) (tok_loop cfg T n s' he')).
   { intros s' he' X Y Z W. eapply np_weaken; [|apply IH; [split; [rewrite X, Y; apply Hi|rewrite X; apply Hi]|lia]].
     intros y (P & Q & K). split; [congruence|]. split; [lia|]. intros lo Hlo Hk.
     assert (Htx : txs s' = txs st) by (unfold txs; rewrite X; reflexivity). rewrite Htx in K.
-    apply K; [lia|]. rewrite W, Hc. unfold push_child. destruct (b_node st) as [k0 m0 a0 e0 cs0]. cbn [set_children n_children] in *.
-    eapply kids_ok_weaken; [apply le_n| |apply (kids_ok_push _ lo line (b_line st1)); [lia|lia| |exact Hb]]; [lia|].
-    eapply kids_ok_weaken; [apply le_n| |exact Hk]. lia. }
+    apply K; [lia|]. rewrite W. destruct Hp1 as [Hsame|(c & Hc & Hb)].
+    - rewrite Hsame. eapply kids_ok_weaken; [apply le_n| |exact Hk]. lia.
+    - rewrite Hc. unfold push_child. destruct (b_node st) as [k0 m0 a0 e0 cs0]. cbn [set_children n_children] in *.
+      eapply kids_ok_weaken; [apply le_n| |apply (kids_ok_push _ lo line (b_line st1)); [lia|lia| |exact Hb]]; [lia|].
+      eapply kids_ok_weaken; [apply le_n| |exact Hk]. lia. }
   cbn [b_line b_max set_tight].
   destruct ((b_line st1 <? b_max st1)%nat && is_empty (set_tight st1 (negb he)) (b_line st1)) eqn:Hnext.
   - apply andb_true_iff in Hnext. destruct Hnext as [Hn1 _]. apply PeanoNat.Nat.ltb_lt in Hn1.
@@ -878,10 +949,10 @@ End Engine.
 (* ------------------------------------------------------------------ *)
 (* closing the recursion                                                 *)
 
-Theorem btokenize_safe cfg : Forall (fun r => r <> R_REF) (bc_chain cfg) ->
+Theorem btokenize_safe cfg :
   forall fuel st, binv st -> (b_line st <= b_max st)%nat -> np (tsafe st) (btokenize fuel cfg st).
 Proof.
-  intros Hc. induction fuel as [|f IH]; intros st Hi Hl; cbn [btokenize]; [exact I|].
+  induction fuel as [|f IH]; intros st Hi Hl; cbn [btokenize]; [exact I|].
   apply np_tokenize_body; try assumption.
   intros s s' E. pose proof (btokenize_spec cfg f s) as H. unfold tspec in H. rewrite E in H. exact H.
 Qed.
@@ -896,26 +967,26 @@ Proof.
     all: match goal with |- context [leading_ws _ ?b1 ?c1] => specialize (IH b1 c1) end; lia.
 Qed.
 
-Lemma mk_line_wf text : rec_wf (mk_line text).
+Lemma mk_line_wf text : cl text = 0 -> rec_wf (mk_line text).
 Proof.
-  unfold rec_wf, mk_line. pose proof (leading_ws_bound text 0 0) as H. destruct (leading_ws text 0 0) as [b c]. cbn [fst l_first l_text] in *. lia.
+  intros Hcl. unfold rec_wf, mk_line. pose proof (leading_ws_bound text 0 0) as H. destruct (leading_ws text 0 0) as [b c]. cbn [fst l_first l_text] in *. lia.
 Qed.
 
 (* the block pass does not panic: every document, every chain without the reference-definition rule, every limit, every fuel *)
-Theorem block_parse_never_panics fuel cfg texts root refs : Forall (fun r => r <> R_REF) (bc_chain cfg) ->
+Theorem block_parse_never_panics fuel cfg texts root refs : Forall (fun t => cl t = 0) texts ->
   forall k, block_parse fuel cfg texts root refs <> inl (Panic k).
 Proof.
-  intros Hc k. unfold block_parse. cbv zeta.
+  intros Hlf k. unfold block_parse. cbv zeta.
   set (st0 := BState (map mk_line texts) root 0 0 (length (map mk_line texts)) false None 0 refs).
   assert (Hi : binv st0).
   { split; [cbn [b_max b_lines st0]; lia|]. intros l r H. cbn [b_lines st0] in H.
-    apply nth_error_In in H. apply in_map_iff in H. destruct H as (t & <- & _). apply mk_line_wf. }
-  pose proof (btokenize_safe cfg Hc fuel st0 Hi ltac:(cbn [b_line b_max st0]; lia)) as H.
+    apply nth_error_In in H. apply in_map_iff in H. destruct H as (t & <- & Ht). apply mk_line_wf. rewrite Forall_forall in Hlf. apply Hlf. exact Ht. }
+  pose proof (btokenize_safe cfg fuel st0 Hi ltac:(cbn [b_line b_max st0]; lia)) as H.
   destruct (btokenize fuel cfg st0) as [[k'| |]|st']; cbn in *; try discriminate; try contradiction.
 Qed.
 
 (* with the termination theorem of BlockProofs: it returns *)
-Theorem block_parse_returns fuel cfg texts root refs : Forall (fun r => r <> R_REF) (bc_chain cfg) ->
+Theorem block_parse_returns fuel cfg texts root refs : Forall (fun t => cl t = 0) texts ->
   (N.to_nat (bc_maxnest cfg) < fuel)%nat -> exists x, block_parse fuel cfg texts root refs = inr x.
 Proof.
   intros Hc Hf. pose proof (block_parse_terminates fuel cfg texts root refs Hf) as Ht.
@@ -933,16 +1004,16 @@ Proof. unfold mk_line. destruct (leading_ws t 0 0). reflexivity. Qed.
 (* every block the block pass returns has a range made of two positions of the line texts, start before end; children lie
    within the lines of their parent; siblings occupy strictly increasing, disjoint line ranges -- every document, every
    chain without the reference-definition rule, every limit and fuel *)
-Theorem block_parse_ranges fuel cfg texts refs root' refs' : Forall (fun r => r <> R_REF) (bc_chain cfg) ->
+Theorem block_parse_ranges fuel cfg texts refs root' refs' : Forall (fun t => cl t = 0) texts ->
   block_parse fuel cfg texts (mk KRoot None []) refs = inr (root', refs') ->
   kids_ok texts 0 (length texts) (n_children root').
 Proof.
-  intros Hc. unfold block_parse. cbv zeta.
+  intros Hlf. unfold block_parse. cbv zeta.
   set (st0 := BState (map mk_line texts) (mk KRoot None []) 0 0 (length (map mk_line texts)) false None 0 refs).
   assert (Hi : binv st0).
   { split; [cbn [b_max b_lines st0]; lia|]. intros l r H. cbn [b_lines st0] in H.
-    apply nth_error_In in H. apply in_map_iff in H. destruct H as (t & <- & _). apply mk_line_wf. }
-  pose proof (btokenize_safe cfg Hc fuel st0 Hi ltac:(cbn [b_line b_max st0]; lia)) as H.
+    apply nth_error_In in H. apply in_map_iff in H. destruct H as (t & <- & Ht). apply mk_line_wf. rewrite Forall_forall in Hlf. apply Hlf. exact Ht. }
+  pose proof (btokenize_safe cfg fuel st0 Hi ltac:(cbn [b_line b_max st0]; lia)) as H.
   destruct (btokenize fuel cfg st0) as [e|st'] eqn:E; cbn [bind ret]; [discriminate|]. intros Heq. injection Heq as <- <-.
   cbn [np] in H. destruct H as (_ & Hline & Hk). specialize (Hk 0%nat (le_n _) I).
   cbn [b_line b_max st0] in Hline, Hk. rewrite map_length in Hline.
@@ -950,3 +1021,35 @@ Proof.
   { unfold txs. cbn [b_lines st0]. rewrite map_map. rewrite <- (map_id texts) at 2. apply map_ext. apply mk_line_text. }
   rewrite Htx in Hk. eapply kids_ok_weaken; [apply le_n|exact Hline|exact Hk].
 Qed.
+
+(* ------------------------------------------------------------------ *)
+(* the lines of a source text hold no line feed: the theorems apply to every source *)
+
+From MdIt Require Import LineProofs.
+
+Lemma texts_loop_lf s : forall cur, cl cur = 0 -> Forall (fun t => cl t = 0) (texts_loop s cur).
+Proof.
+  assert (Hrev : forall c : str, cl c = 0 -> cl (rev c) = 0).
+  { induction c as [|x c IH]; cbn [rev cl]; [auto|]. intros H. rewrite cl_app. cbn [cl]. destruct (x =? 10); [lia|]. rewrite IH; lia. }
+  induction s as [s IH] using len_ind. intros cur Hc. destruct s as [|c t]; cbn [texts_loop]; [repeat constructor; apply Hrev; exact Hc|].
+  destruct (c =? 10) eqn:E10.
+  - destruct t as [|d t']; [repeat constructor; apply Hrev; exact Hc|]. constructor; [apply Hrev; exact Hc|apply IH; [cbn; lia|reflexivity]].
+  - destruct (c =? 13).
+    + destruct t as [|d t']; [repeat constructor; apply Hrev; exact Hc|]. destruct (d =? 10).
+      * destruct t' as [|e t'']; [repeat constructor; apply Hrev; exact Hc|]. constructor; [apply Hrev; exact Hc|apply IH; [cbn; lia|reflexivity]].
+      * constructor; [apply Hrev; exact Hc|apply IH; [cbn; lia|reflexivity]].
+    + apply IH; [cbn; lia|]. cbn [cl]. rewrite E10. lia.
+Qed.
+
+Theorem texts_of_lf_free src : Forall (fun t => cl t = 0) (texts_of src).
+Proof. rewrite texts_of_loop. apply texts_loop_lf. reflexivity. Qed.
+
+(* for the lines of ANY source text: the block pass returns, and its tree is well ranged *)
+Theorem block_pass_of_source_returns fuel cfg src root refs : (N.to_nat (bc_maxnest cfg) < fuel)%nat ->
+  exists x, block_parse fuel cfg (texts_of src) root refs = inr x.
+Proof. intros Hf. apply block_parse_returns; [apply texts_of_lf_free|exact Hf]. Qed.
+
+Theorem block_pass_of_source_ranges fuel cfg src refs root' refs' :
+  block_parse fuel cfg (texts_of src) (mk KRoot None []) refs = inr (root', refs') ->
+  kids_ok (texts_of src) 0 (length (texts_of src)) (n_children root').
+Proof. apply block_parse_ranges. apply texts_of_lf_free. Qed.
